@@ -8,6 +8,16 @@ class C19(CalibCheck):
     title = {"C17": "Calibration expansion is a complete, faithful substitution", "C18": "Calibration expansion always terminates without crashing",
              "C19": "The calibration source map exactly accounts for every expansion"}["C19"]
 
+    # the source map depends on nesting depth and on how many instructions each level emits, not on what is substituted:
+    # three levels of nesting over bodies of one to three instructions, one or two of them calls
+    K = {"quick": 3, "thorough": 3}
+    quick_bodies = ("x", "x-fence", "fence-x-fence", "three", "decl-x")
+    quick_headers = ("hf", "hv")
+    quick_body = ("g",)
+    sorted_shapes = {"quick": True}
+    thorough_bodies = ("x", "xfixed", "x-fence", "fence-x-fence", "three", "decl-x", "fence", "meas", "cap-addr")
+    thorough_headers = ("hf", "hv", "hpv", "mv")
+
     def canary(self, runner, tier):
         case = {"program": "DEFCAL RX v:\n\tFENCE v\nDEFCAL RY 0:\n\tRY 0\nRX 0"}
         obs, raw = self.native(runner, case)
